@@ -156,47 +156,33 @@ Print Assumptions C08_every_translated_row_is_covered.
    tools/translate_lock.py / translate_prims.py regenerate from /repo's source on this run; run by the interpreters
    LockImp.exec / PrimImp.exec with "the caller's scope is effectively cancelled at entry" they end at the
    cancellation check with NOTHING changed (owner / value / borrowers / queues / futures / events, nothing enqueued,
-   nobody woken).  With the flag off the same segments are the ones C09_tie_* / C10_tie_* equate with the models.
+   nobody woken).  Since F53 Lock.acquire checks first on BOTH paths: the Lock theorem is for every state.  With the flag off the same segments are the ones C09_tie_* / C10_tie_* equate with the models.
    The interpreters are position-sensitive: a segment that performs its effect before the check is stuck and none of
    these theorems could be proved for it (LockGenEq / SemGenEq / LimiterGenEq: ex_check_after_effect_is_stuck_cancelled). *)
 From AV Require LockImp LockGen LockGenEq PrimImp SemImp SemGen SemGenEq LimiterImp LimiterGen LimiterGenEq.
 
 Theorem C08_tie_lock_cancelled_entry_noeffect : forall (s : Lock.st) (t : tid),
-  Lock.owner s = None -> Lock.waiters s = [] ->
   exists e, LockImp.exec LockGen.acquire_entry t LockImp.env_entry_cancelled (LockImp.core s) =
               (e, LockImp.core s, LockImp.OCancelled) /\
             LockImp.e_enq e = [] /\ LockImp.e_rel e = false.
 Proof. exact LockGenEq.cancelled_entry_noeffect. Qed.
 Print Assumptions C08_tie_lock_cancelled_entry_noeffect.
 
-(* where the source has no check (contended path: it enqueues and waits; the cancellation reaches the waiting task,
-   C03) the flag is not read: state and outcome are those of the live call *)
-Theorem C08_tie_lock_cancelled_entry_contended_as_live : forall (s : Lock.st) (t : tid),
-  Lock.owner s <> None \/ Lock.waiters s <> [] ->
-  snd (fst (LockImp.exec LockGen.acquire_entry t LockImp.env_entry_cancelled (LockImp.core s))) =
-    snd (fst (LockImp.exec LockGen.acquire_entry t LockImp.env_entry (LockImp.core s))) /\
-  snd (LockImp.exec LockGen.acquire_entry t LockImp.env_entry_cancelled (LockImp.core s)) =
-    snd (LockImp.exec LockGen.acquire_entry t LockImp.env_entry (LockImp.core s)).
-Proof. exact LockGenEq.cancelled_entry_contended_as_live. Qed.
-Print Assumptions C08_tie_lock_cancelled_entry_contended_as_live.
-
 Theorem C08_tie_sem_cancelled_entry_noeffect : forall (s : Sem.st) (t : tid),
-  Sem.value s > 0 -> Sem.waiters s = [] ->
   exists l, PrimImp.exec SemGen.sem_acquire_entry t (PrimImp.loc_entry_cancelled None) PrimImp.log0 (SemImp.core s) =
-              (l, PrimImp.log0, SemImp.core s, PrimImp.OCancelled).
+            (l, PrimImp.log0, SemImp.core s, PrimImp.OCancelled).
 Proof. exact SemGenEq.cancelled_entry_noeffect. Qed.
 Print Assumptions C08_tie_sem_cancelled_entry_noeffect.
 
-Theorem C08_tie_sem_cancelled_entry_contended_as_live : forall (s : Sem.st) (t : tid),
-  Sem.value s = 0 \/ Sem.waiters s <> [] ->
-  snd (PrimImp.exec SemGen.sem_acquire_entry t (PrimImp.loc_entry_cancelled None) PrimImp.log0 (SemImp.core s)) =
-    snd (PrimImp.exec SemGen.sem_acquire_entry t (PrimImp.loc_entry None None) PrimImp.log0 (SemImp.core s)) /\
-  snd (fst (PrimImp.exec SemGen.sem_acquire_entry t (PrimImp.loc_entry_cancelled None) PrimImp.log0 (SemImp.core s))) =
-    snd (fst (PrimImp.exec SemGen.sem_acquire_entry t (PrimImp.loc_entry None None) PrimImp.log0 (SemImp.core s))) /\
-  snd (fst (fst (PrimImp.exec SemGen.sem_acquire_entry t (PrimImp.loc_entry_cancelled None) PrimImp.log0 (SemImp.core s)))) =
-    snd (fst (fst (PrimImp.exec SemGen.sem_acquire_entry t (PrimImp.loc_entry None None) PrimImp.log0 (SemImp.core s)))).
-Proof. exact SemGenEq.cancelled_entry_contended_as_live. Qed.
-Print Assumptions C08_tie_sem_cancelled_entry_contended_as_live.
+(* since the F53 fix (c2fb7fb) the check is the FIRST statement of Semaphore.acquire(): the statement above holds
+   in EVERY state (permit free or not, queue empty or not; the former `..._contended_as_live` is gone - the
+   contended path has the check too), and with a live check the regenerated entry segment is its remaining body *)
+Theorem C08_tie_sem_cancelled_entry_check_first :
+  exists body, SemGen.sem_acquire_entry = PrimImp.SSeq PrimImp.SCkIf body /\
+    forall t l g k, PrimImp.l_fresh l = true -> PrimImp.l_canc l = false ->
+      PrimImp.exec SemGen.sem_acquire_entry t l g k = PrimImp.exec body t l g k.
+Proof. exact SemGenEq.tie_acquire_check_first. Qed.
+Print Assumptions C08_tie_sem_cancelled_entry_check_first.
 
 (* CapacityLimiter.acquire() / acquire_on_behalf_of(b): every state and borrower - a token free or not, b already
    holding or already waiting: the cancellation check is the first statement, before both RuntimeError tests *)
